@@ -16,6 +16,8 @@ OBLIGATIONS = [
     "Pkgcore.C33.run_frame",
     "Pkgcore.C33.run_ancestors_are_dirs",
     "Pkgcore.C33.run_last_entry",
+    "Pkgcore.C33.requested_mode_and_owner",
+    "Pkgcore.C33.request_independent_of_history",
     "Pkgcore.C33.basename_install_placement",
     "Pkgcore.C33.directory_needs_recursive",
     "Pkgcore.C33.recursive_install_mirrors_tree",
@@ -36,16 +38,23 @@ TRUSTED = [
     "os.walk order and os.stat/islink/isdir answers are taken from the structural description of the generated source tree",
     "regular expressions detect_lang_re / valid_mandir_re / archive_exts_regex are re-expressed as structural recognisers "
     "(ASCII names without newlines); differential-tested through the real doman on generated names",
-    "ownership (-o/-g) is not modelled (the run is root and uses numeric 0); timestamps (-p) are not observed",
+    "ownership (-o/-g) is modelled and compared (uid/gid of every image entry) when the run is root — otherwise those options are not "
+    "generated and the evidence says so; the kernel's clearing of set-id bits on chown is not modelled (the code chowns before it chmods); "
+    "timestamps (-p) are not observed",
     "tables (per-EAPI helper options, archive extensions, helper default modes, dohtml extensions) are regenerated from the imported modules on every run",
     "the bash half (helper scripts computing --dest from into/insinto/exeinto/docinto) is run for real through pkgcore-ipc-helper "
     "with the Python helper answering on the pipe; its result is compared with a PMS destination table kept in this file (not in Lean)",
 ]
 ASSUMPTIONS = [
+    "directory modes with the set-group-id bit are not generated: the kernel then hands the directory's group (and the bit) to entries "
+    "created below it, which is a property of the file system, not of the helpers, and is not modelled",
     "fallback to the external install(1) command (unparsable mode strings, unknown install options) is property C32's territory and not generated here",
     "source arguments are plain relative names below the working directory; directory arguments are real directories (not symlinks to directories)",
 ]
-RULE = ("random source trees (files, nested directories, symlinks to files/directories, broken links) and 1-3 helper requests per image "
+RULE = ("random source trees (files, nested directories, symlinks to files/directories, broken links) and sequences of 1-6 helper requests "
+        "served by ONE long-lived helper table on one image (as ebd does), half of them the previous request repeated after an "
+        "into/insinto/insopts/diropts change (other --dest, other options), the image compared after every request; install options "
+        "with set-id/sticky modes and -o/-g (uids/gids 0, 250, 251) "
         "(doins/dodoc/dohtml with and without -r, doexe/dobin/dosbin/dolib*/doinfo, doman with sections/languages/compression/-i18n, domo, "
         "dodir, keepdir, dosym incl. -r, dohard) over EAPIs 0-8, random --dest, option strings in several spellings and a random umask; "
         "non-trivial = the request names at least one source or link and the image after it has at least two entries, or it is rejected for a PMS reason")
@@ -56,7 +65,7 @@ LEVEL_TEXT = ("Kernel-checked Lean 4 theorems about a model of the helpers in tw
               "dodir/keepdir, dosym/dohard) equals an independently written PMS table and the PMS rejections are exactly the rejected requests. "
               "The model is tied to the code by running the real helper classes (through IpcCommand.__call__, with the whole helper table "
               "instantiated as ebd does, under a random umask) on scratch images and comparing image snapshots with the model and with the spec.")
-LEVEL_NOTE = ("Partial: modes/ownership/timestamps exist only on the real file system (modes compared in the sampled runs, ownership not); "
+LEVEL_NOTE = ("Partial: timestamps exist only on the real file system; modes and ownership are modelled and compared in the sampled runs (as root); "
               "argument/option parsing and the bash helper scripts are covered by the sampled correspondence only.")
 
 EAPIS = ["0", "1", "2", "3", "4", "5", "6", "7", "8"]
@@ -171,12 +180,12 @@ def snapshot(root, ids):
             st = os.lstat(p)
             rel = os.path.relpath(p, root)
             if stat.S_ISLNK(st.st_mode):
-                out.append([rel, "l", 0, os.readlink(p)])
+                out.append([rel, "l", 0, os.readlink(p), st.st_uid, st.st_gid])
             elif stat.S_ISDIR(st.st_mode):
-                out.append([rel, "d", st.st_mode & 0o7777, ""])
+                out.append([rel, "d", st.st_mode & 0o7777, "", st.st_uid, st.st_gid])
             else:
                 data = open(p, "rb").read()
-                out.append([rel, "f", st.st_mode & 0o7777, ids.get(data, -1) if data else 0])
+                out.append([rel, "f", st.st_mode & 0o7777, ids.get(data, -1) if data else 0, st.st_uid, st.st_gid])
     return sorted(out)
 
 
@@ -214,14 +223,16 @@ def gen_tables(repo):
                     os.chdir(cwd)
                 im = getattr(h.insoptions, "mode", None) if h.insoptions else None
                 dm = getattr(h.diroptions, "mode", None) if h.diroptions else None
-                return im, dm
-            im, dm = modes([])
-            im2, _ = modes(["--insoptions=-m0604"])
+                io = getattr(h.insoptions, "owner", -1) if h.insoptions else -1
+                ig = getattr(h.insoptions, "group", -1) if h.insoptions else -1
+                return im, dm, (None if io == -1 else io), (None if ig == -1 else ig)
+            im, dm, io, ig = modes([])
+            im2 = modes(["--insoptions=-m0604"])[0]
             forced = im2 != 0o604
 
             def opt(x):
                 return "none" if x is None else f"some {x}"
-            hrows.append(f'  ⟨"{name}", {opt(im)}, {opt(dm)}, {b(forced)}⟩')
+            hrows.append(f'  ⟨"{name}", {opt(im)}, {opt(dm)}, {b(forced)}, {opt(io)}, {opt(ig)}⟩')
         html = ", ".join(json.dumps(x) for x in ebd_ipc.Dohtml.default_allowed_file_exts)
     finally:
         shutil.rmtree(scratch, ignore_errors=True)
@@ -230,6 +241,7 @@ def gen_tables(repo):
             "structure EapiRow where\n  magic : String\n  dodocAllowRecursive : Bool\n  domanDetect : Bool\n  domanOverride : Bool\n"
             "  dosymRelative : Bool\n  unpackCI : Bool\n  archiveExts : List String\n"
             "structure HelperRow where\n  name : String\n  insMode : Option Nat\n  dirMode : Option Nat\n  forcedIns : Bool\n"
+            "  insOwner : Option Nat\n  insGroup : Option Nat\n"
             "def eapis : List EapiRow := [\n" + ",\n".join(rows) + "]\n"
             "def helpers : List HelperRow := [\n" + ",\n".join(hrows) + "]\n"
             f"def dohtmlDefaultExts : List String := [{html}]\n"
@@ -330,7 +342,9 @@ class TreeGen:
         return sorted(p for p, n in self.nodes.items() if pred(p, n))
 
 
-NOT_PRESENT = {"present": False, "empty": False, "mode": None}
+NOT_PRESENT = {"present": False, "empty": False, "mode": None, "owner": None, "group": None}
+IS_ROOT = os.geteuid() == 0
+IDS = [0, 0, 250, 251]
 
 
 def spell_mode(rng, m):
@@ -338,17 +352,36 @@ def spell_mode(rng, m):
     return rng.choice(["-m0%s" % o, "-m%s" % o, "-m 0%s" % o, "--mode=0%s" % o, "--mode 0%s" % o, "-m0%s -p" % o, "-p -m0%s" % o])
 
 
-def gen_raw(rng, p_present=0.7):
-    """(option value or None, RawOpts json)"""
+def spell_id(rng, flag, long, i):
+    name = "root" if i == 0 and rng.random() < 0.4 else str(i)
+    return rng.choice(["-%s%s" % (flag, name), "-%s %s" % (flag, name), "--%s=%s" % (long, name), "--%s %s" % (long, name)])
+
+
+def gen_raw(rng, p_present=0.7, files=True):
+    """(option value or None, RawOpts json); ownership options only when the run can chown (root)"""
     if rng.random() > p_present:
-        return None, {"present": False, "empty": False, "mode": None}
+        return None, dict(NOT_PRESENT)
     k = rng.random()
-    if k < 0.1:
-        return "", {"present": True, "empty": True, "mode": None}
-    if k < 0.2:
-        return "-p", {"present": True, "empty": False, "mode": None}
-    m = rng.choice([0o644, 0o755, 0o600, 0o700, 0o444, 0o750, 0o4755, 0o664])
-    return spell_mode(rng, m), {"present": True, "empty": False, "mode": m}
+    if k < 0.08:
+        return "", {"present": True, "empty": True, "mode": None, "owner": None, "group": None}
+    parts = []
+    raw = {"present": True, "empty": False, "mode": None, "owner": None, "group": None}
+    if k < 0.16:
+        parts.append("-p")
+    else:
+        modes = [0o644, 0o755, 0o600, 0o700, 0o444, 0o750, 0o4755, 0o664, 0o2755, 0o6755, 0o4711, 0o2750] if files else \
+                [0o755, 0o700, 0o750, 0o1777, 0o775, 0o1770, 0o711, 0o751]
+        raw["mode"] = rng.choice(modes)
+        parts.append(spell_mode(rng, raw["mode"]))
+    if IS_ROOT and rng.random() < 0.45:
+        if rng.random() < 0.7:
+            raw["owner"] = rng.choice(IDS)
+            parts.append(spell_id(rng, "o", "owner", raw["owner"]))
+        if rng.random() < 0.7:
+            raw["group"] = rng.choice(IDS)
+            parts.append(spell_id(rng, "g", "group", raw["group"]))
+    rng.shuffle(parts)
+    return " ".join(parts), raw
 
 
 def opt_string(dest, ins, dirs):
@@ -367,7 +400,7 @@ def gen_request(rng, tree, eapi, image_paths):
     kind = rng.choice(["doins", "doins", "dodoc", "dohtml", "basename", "basename", "doman", "doman", "domo",
                        "dodir", "keepdir", "dosym", "dosym", "dohard"])
     ins_s, ins = gen_raw(rng)
-    dir_s, dirs = gen_raw(rng, 0.5)
+    dir_s, dirs = gen_raw(rng, 0.5, files=False)
     dest = rng.choice(DESTS)
     files = tree.paths(lambda p, n: n["t"] == "file")
     top_files = [p for p in files if "/" not in p]
@@ -501,6 +534,26 @@ def gen_request(rng, tree, eapi, image_paths):
         req.update({"source": src, "target": tgt, "dest": "/", "ins": dict(NOT_PRESENT), "dir": dict(NOT_PRESENT)})
         return req, "dohard", "", [src, tgt]
     raise AssertionError(kind)
+
+
+def vary_request(rng, tree, eapi, prev, image_paths):
+    """the previous request once more — same helper, same arguments — after an `into`/`insinto`/`insopts`/`diropts`
+    change: another --dest and other install options (what a helper does must not depend on its earlier requests)"""
+    req, name, options, argv = prev
+    kind = req["kind"]
+    if kind in ("dosym", "dohard"):
+        return gen_request(rng, tree, eapi, image_paths)
+    new = json.loads(json.dumps(req))
+    ins_s, ins = gen_raw(rng, 0.75)
+    dir_s, dirs = gen_raw(rng, 0.6, files=False)
+    if kind in ("dodir", "keepdir"):
+        new["dir"] = dirs
+        return new, name, opt_string(None, None, dir_s), list(argv)
+    dest = rng.choice([d for d in DESTS + ["/usr/share/man", "/usr/share/locale", "/opt/t/share/man"] if d != req["dest"]])
+    if rng.random() < 0.25:
+        dest = req["dest"]
+    new["dest"], new["ins"], new["dir"] = dest, ins, dirs
+    return new, name, opt_string(dest, ins_s, dir_s), list(argv)
 
 
 # ---------------------------------------------------------------- dosym -r pairs
@@ -715,9 +768,11 @@ def _run_man_names(ctx, rng):
 
 
 def _run_sequences(ctx, rng, base):
-    nseq = ctx.n(260, 6000)
+    nseq = ctx.n(300, 12000)
+    if not IS_ROOT:
+        ctx.note("not running as root: -o/-g install options (ownership) are not exercised")
     batches = []
-    corpus = list(SEQ_CORPUS)
+    corpus = list(SEQ_CORPUS) + (list(ROOT_CORPUS) if IS_ROOT else [])
     for i in range(nseq + len(corpus)):
         eapi = rng.choice(EAPIS)
         um = rng.choice([0o022, 0o022, 0o027, 0o077, 0o002])
@@ -731,12 +786,16 @@ def _run_sequences(ctx, rng, base):
         reqs = []
         image_paths = []
         scripted = corpus[i] if i < len(corpus) else None
-        nreq = len(scripted) if scripted else rng.choice([1, 1, 2, 3])
+        nreq = len(scripted) if scripted else rng.choice([1, 2, 3, 4, 5, 6])
+        prev = None
         for k in range(nreq):
             if scripted:
                 req, name, options, argv = scripted[k](tree, eapi)
+            elif prev is not None and prev[0] is not None and rng.random() < 0.5:
+                req, name, options, argv = vary_request(rng, tree, eapi, prev, image_paths)
             else:
                 req, name, options, argv = gen_request(rng, tree, eapi, image_paths)
+            prev = (req, name, options, argv)
             os.umask(um)
             try:
                 status, msg = call_helper(table[name.split("-")[0]], W, options, argv)
@@ -753,7 +812,8 @@ def _run_sequences(ctx, rng, base):
         batches.append((eapi, um, impl_results, reqs))
         shutil.rmtree(W, ignore_errors=True)
         shutil.rmtree(ED, ignore_errors=True)
-    model_reqs = [{"cmd": "c33.seq", "umask": {"dir": 0o777 & ~um, "file": 0o666 & ~um}, "reqs": reqs}
+    model_reqs = [{"cmd": "c33.seq", "umask": {"dir": 0o777 & ~um, "file": 0o666 & ~um, "uid": os.geteuid(), "gid": os.getegid()},
+                   "reqs": reqs}
                   for _, um, _, reqs in batches]
     replies = ctx.model([r for r in model_reqs if r["reqs"]])
     it = iter(replies)
@@ -808,8 +868,10 @@ def _run_sequences(ctx, rng, base):
                         ctx.mismatch(case, "image differs from the Lean model's: " + diff_snap(snap, got))
                 else:
                     mreason = model.split(":", 1)[1]
-                    coarse = {"copyFailed": "oserror"}   # a directory handed to _install fails in unlink or in copyfile
-                    if coarse.get(mreason, mreason) != coarse.get(impl_reason, impl_reason):
+                    # a file-system level failure (entry in the way, a directory handed to _install) can surface before or
+                    # after a request-level rejection: the helper creates --dest first, the model plans first; both reject
+                    fs_level = {"copyFailed", "oserror"}
+                    if mreason != impl_reason and not (mreason in fs_level or impl_reason in fs_level):
                         ctx.mismatch(case, f"rejection reason differs: real helper {impl_reason} ({msg}); Lean model {mreason}")
             if status != "ok":
                 break
@@ -826,12 +888,23 @@ def diff_snap(got, want):
 
 
 # scripted sequences: every defect found while building this check, and the boundary cases of the property text
+def _raw(opt):
+    """RawOpts of a simple option string made of -mMODE, -oN, -gN words"""
+    raw = {"present": opt is not None, "empty": opt == "", "mode": None, "owner": None, "group": None}
+    for w in (opt or "").split():
+        if w.startswith("-m"):
+            raw["mode"] = int(w[2:], 8)
+        elif w.startswith("-o"):
+            raw["owner"] = int(w[2:])
+        elif w.startswith("-g"):
+            raw["group"] = int(w[2:])
+    return raw
+
+
 def _mk(kind, name, dest, argv_fn, extra=None, ins=None, dirs=None, options=None):
     def f(tree, eapi):
         argv, fields = argv_fn(tree)
-        req = {"eapi": eapi, "kind": kind, "name": name, "dest": dest,
-               "ins": {"present": ins is not None, "empty": ins == "", "mode": int(ins[2:], 8) if ins else None},
-               "dir": {"present": dirs is not None, "empty": dirs == "", "mode": int(dirs[2:], 8) if dirs else None}}
+        req = {"eapi": eapi, "kind": kind, "name": name, "dest": dest, "ins": _raw(ins), "dir": _raw(dirs)}
         req.update(fields)
         if extra:
             req.update(extra)
@@ -897,6 +970,28 @@ SEQ_CORPUS = [
      _mk("dohard", "dohard", "/", lambda t: (["/usr/bin/" + _files(t, 1)[0], "/usr/bin/hl"],
                                                 {"source": "/usr/bin/" + _files(t, 1)[0], "target": "/usr/bin/hl"}), options="")],
     [_mk("keepdir", "keepdir", "/", lambda t: (["/var/lib/x", "run"], {"dirs": ["/var/lib/x", "run"], "category": "cat", "pn": "pn", "slot": "0"}), dirs="-m0750",
+         options='--diroptions="-m0750"')],
+    # one long-lived helper object, several requests: the same page into another destination, and again with other diropts
+    [_mk("doman", "doman", "/usr/share/man", _man(["foo.1", "bar.de.3"])),
+     _mk("doman", "doman", "/opt/t/share/man", _man(["foo.1", "bar.de.3"])),
+     _mk("doman", "doman", "/opt/t/share/man", _man(["foo.1"]), dirs="-m0700"),
+     _mk("doman", "doman", "/usr/share/man", _man(["foo.1"], "fr"), ins="-m0600")],
+    [_mk("domo", "domo", "/usr/share/locale", lambda t: (t.add_named_files(["de.mo"]) or ["de.mo"], dict(_tg(t, ["de.mo"]), pn="pn"))),
+     _mk("domo", "domo", "/opt/t/share/locale", lambda t: (["de.mo"], dict(_tg(t, ["de.mo"]), pn="pn")), dirs="-m0750")],
+    [_mk("doins", "doins", "/usr/share/x", _dirarg(True), ins="-m0644", dirs="-m0755"),
+     _mk("doins", "doins", "/etc", _dirarg(True), ins="-m0600", dirs="-m0700"),
+     _mk("doins", "doins", "/usr/share/x", _dirarg(True), ins="-m0640", dirs="-m0750")],
+]
+# ownership needs root
+ROOT_CORPUS = [
+    # set-id bits survive only when the owner is changed before the mode
+    [_mk("basename", "doexe", "/usr/libexec", lambda t: (_files(t), _tg(t, _files(t))), ins="-m4755 -o0 -g0")],
+    [_mk("doins", "doins", "/usr/share/x", lambda t: (_files(t), dict(_tg(t, _files(t)), recursive=False)), ins="-m2755 -g250", dirs="-m0755 -g251")],
+    [_mk("basename", "dolib.so", "/usr/lib64", lambda t: (_files(t, 1), _tg(t, _files(t, 1))), ins="-m6755 -o250 -g251"),
+     _mk("basename", "dolib.so", "/usr/lib64", lambda t: (_files(t, 1), _tg(t, _files(t, 1))), ins="-m0644")],
+    [_mk("dodir", "dodir", "/", lambda t: (["/var/lib/g"], {"dirs": ["/var/lib/g"], "category": "cat", "pn": "pn", "slot": "0"}), dirs="-m1775 -o250 -g251",
+         options='--diroptions="-m1775 -o250 -g251"'),
+     _mk("keepdir", "keepdir", "/", lambda t: (["/var/lib/g"], {"dirs": ["/var/lib/g"], "category": "cat", "pn": "pn", "slot": "0"}), dirs="-m0750",
          options='--diroptions="-m0750"')],
 ]
 
